@@ -100,7 +100,7 @@ example : (⟨[2, 99, 0], some [true, false, true]⟩ : IdxArr).WF ∧
   · intro bs h; cases h; rfl
   · decide
 
-/-! ### concat, nullif -/
+/-! ### concat, nullif, interleave, shift -/
 
 /-- **`concat`** (`concat_primitives`: `append_array` per input, validity materialised only when
 a null was appended): the result decodes to the concatenation of the inputs' rows and is
@@ -116,6 +116,22 @@ theorem nullif_correct {α : Type} (a : Arr α) (hwf : a.WF) (r : List (Option B
     (a.len = r.length → ∃ out, nullifKernel a r = some out ∧ out.decode = nullifSpec a.decode r) ∧
     (a.len ≠ r.length → nullifKernel a r = none) :=
   nullifKernel_decode a hwf r
+
+/-- **`interleave`** (`interleave_primitive` + `Interleave::new`, validity collected only when
+some input has nulls): row `k` of the result is row `b_k` of input `a_k`; an out-of-range
+pair never yields rows (the Rust code panics). -/
+theorem interleave_correct {α : Type} (arrs : List (Arr α)) (hwf : ∀ a ∈ arrs, a.WF) (idx : List (Nat × Nat)) :
+    match interleaveSpec (arrs.map Arr.decode) idx with
+    | some r => ∃ out, interleavePrimitive arrs idx = some out ∧ out.decode = r
+    | none => interleavePrimitive arrs idx = none :=
+  interleavePrimitive_spec arrs hwf idx
+
+/-- **`shift`** (window.rs: `offset = 0` copy, `|offset| ≥ len` all null, otherwise `concat` of a
+null array and a slice): row `i` of the result is row `i - offset` of the input, null when
+that falls outside; the length is unchanged — for every offset including `i64::MIN`. -/
+theorem shift_correct {α : Type} [Inhabited α] (a : Arr α) (hwf : a.WF) (k : Int) :
+    (shiftKernel a k).decode = shiftSpec a.decode k :=
+  shiftKernel_decode a hwf k
 
 /-! ### batch coalescer -/
 
